@@ -532,6 +532,7 @@ pub fn run(ctx: &mut Ctx) -> Result<(), Violation> {
     let wc = ctx.tier.cases(6_000, 200_000);
     crate::wide::stage_conn(ctx, "wide-operands", false, wc)?;
     crate::wide::stage_collisions(ctx, "operands-with-equal-hash-sub-diagrams", "conn")?;
+    crate::wide::fuzz_kind(ctx, "conn", replay)?;
     Ok(())
 }
 
